@@ -368,10 +368,13 @@ def coll_round_trip(recipes, via, thr, tmpdir, recipe_id):
     try:
         members = []
         for k, rc in enumerate(recipes):
+            # member names are distinct unless the recipe asks for members that SHARE a name (a collection pairs members
+            # with their configs by position, so equal names are legitimate)
+            mname = "m" if recipe_id.get("dup_names") else f"m{k}"
             if rc["kind"] == "empty":
-                members.append(MazeDataset(MazeDatasetConfig(name=f"m{k}", grid_n=rc["g"], n_mazes=0), []))
+                members.append(MazeDataset(MazeDatasetConfig(name=mname, grid_n=rc["g"], n_mazes=0), []))
             else:
-                members.append(build(dict(rc, name=f"m{k}")))
+                members.append(build(dict(rc, name=mname)))
         mrecs = [dict(mode=rc.get("mode", "none"), **_thr_fields(thr), **observe_member(d)) for rc, d in zip(recipes, members)]
     except Exception:  # noqa: BLE001 - input construction
         return None
@@ -549,7 +552,22 @@ def collection_jobs(seed, count, disk_every):
             thrs.append(0)
         thrs = [t for i, t in enumerate(thrs) if t not in thrs[:i]]
         vias = ("mem", "disk") if k % disk_every == 0 else ("mem",)
-        jobs.append(dict(coll=members, rid=dict(kind="coll", k=k, cfg_style="copied" if k % 3 == 1 else "shared"), trips=[(via, t) for via in vias for t in thrs]))
+        rid = dict(kind="coll", k=k, cfg_style="copied" if k % 3 == 1 else "shared")
+        if k % 5 == 2 and nm >= 2:
+            # members sharing one name; every other such collection also shares the grid size (configs then differ in n_mazes only)
+            rid["dup_names"] = True
+            if k % 2 == 0:
+                for m in members:
+                    m["g"] = members[0]["g"]
+        jobs.append(dict(coll=members, rid=rid, trips=[(via, t) for via in vias for t in thrs]))
+    return jobs
+
+
+def long_solution_jobs():
+    """solutions of 127 .. 256 cells (serpentine mazes on 12x12 and 16x16): lengths and coordinates beyond the small-int ranges"""
+    jobs = []
+    for g, lens, mode in ((12, [127, 128, 129, 144], "permaze"), (12, [144, 2, 130], "collected"), (16, [255, 256, 129, 1], "permaze"), (16, [200, 131], "none")):
+        jobs.append(dict(recipe=dict(kind="exh", g=g, lens=lens, mode=mode, cfgv=0), trips=all_trips(len(lens), ("mem", "disk"))))
     return jobs
 
 
@@ -738,6 +756,7 @@ def main(chk: lib.Check) -> int:
     jobs += random_jobs(chk.seed, 2400 if thorough else 260, disk_every=2 if thorough else 3)
     jobs += collection_jobs(chk.seed, 900 if thorough else 120, disk_every=2)
     jobs += default_threshold_jobs()
+    jobs += long_solution_jobs()
     # deterministic shuffle: balanced pmap chunks and every batch is a mix of all kinds
     order = np.random.default_rng([chk.seed, 99]).permutation(len(jobs))
     jobs = [jobs[i] for i in order]
